@@ -304,3 +304,82 @@ package dnssec
 //@   assert at return#3: result == nil && lastret("middleware/resolver/dnssec.typesSet#1") && !lastret("middleware/resolver/dnssec.typesSet#2")
 //@   assert at return#1: result != nil
 //@   assert at return#2: result != nil
+//@
+//@ # ---- C14: the binding preflight. A signature is only ever checked cryptographically against a key it names (protocol
+//@ # 3, ZONE flag, algorithm, class, signer name; the key tag is compared too) and an RRset it covers (class, type, owner
+//@ # up to case, label count, and the owner INSIDE the signer zone on a label boundary)
+//@ func signatureBinding
+//@   abstract
+//@   nosafety all pre
+//@   assert at return#6: result == nil && k != nil && sig != nil
+//@   assert at return#6: lastret("github.com/miekg/dns.IsRRset")
+//@   assert at return#6: calls("middleware/resolver/dnssec.KeyTag") == 1
+//@   assert at return#6: sig.Algorithm == k.Algorithm && sig.Hdr.Class == k.Hdr.Class
+//@   assert at return#6: foldEq(sig.SignerName, k.Hdr.Name) && hdrOf(rrset[0]).Class == sig.Hdr.Class && hdrOf(rrset[0]).Rrtype == sig.TypeCovered && countLabel(hdrOf(rrset[0]).Name) >= int(sig.Labels) && foldEq(hdrOf(rrset[0]).Name, sig.Hdr.Name) && inZone(canon(hdrOf(rrset[0]).Name), canon(sig.SignerName))
+//@   assert at call middleware/resolver/dnssec.KeyTag#1: arg0 == k && k.Protocol == 3 && k.Flags & 256 != 0 && lastret("github.com/miekg/dns.IsRRset")
+//@   assert at return#1: result != nil
+//@   assert at return#2: result != nil
+//@   assert at return#3: result != nil
+//@   assert at return#4: result != nil
+//@   assert at return#5: result != nil
+//@
+//@ # signature verification (abstracting tier): no cryptographic primitive runs before the binding preflight accepted
+//@ # the (key, signature, RRset) triple; the signed data is built from THIS signature and RRset; the primitive is chosen
+//@ # by the signature's algorithm and an algorithm outside the implemented set is refused, never guessed
+//@ func verifySignature
+//@   abstract
+//@   nosafety all pre
+//@   assert at call middleware/resolver/dnssec.rrsigSignedData#1: lastret("middleware/resolver/dnssec.signatureBinding") == nil && arg0 == sig && arg1 == rrset
+//@   assert at call middleware/resolver/dnssec.verifyRSASignature#1: arg0 == k && arg1 == sig.Algorithm && arg2 == lastret("middleware/resolver/dnssec.rrsigSignedData") && lastret("middleware/resolver/dnssec.rrsigSignedData", 1) == nil && arg3 == lastret("middleware/resolver/dnssec.fromBase64") && lastret("middleware/resolver/dnssec.fromBase64", 1) == nil && (sig.Algorithm == dns.RSASHA1 || sig.Algorithm == dns.RSASHA1NSEC3SHA1 || sig.Algorithm == dns.RSASHA256 || sig.Algorithm == dns.RSASHA512)
+//@   assert at call middleware/resolver/dnssec.verifyECDSASignature#1: arg0 == k && arg1 == sig.Algorithm && arg2 == lastret("middleware/resolver/dnssec.rrsigSignedData") && arg3 == lastret("middleware/resolver/dnssec.fromBase64") && lastret("middleware/resolver/dnssec.fromBase64", 1) == nil && (sig.Algorithm == dns.ECDSAP256SHA256 || sig.Algorithm == dns.ECDSAP384SHA384)
+//@   assert at call middleware/resolver/dnssec.verifyEd25519Signature#1: arg0 == k && arg1 == lastret("middleware/resolver/dnssec.rrsigSignedData") && arg2 == lastret("middleware/resolver/dnssec.fromBase64") && lastret("middleware/resolver/dnssec.fromBase64", 1) == nil && sig.Algorithm == dns.ED25519
+//@   assert at return#1: result != nil
+//@   assert at return#2: result != nil
+//@   assert at return#3: result != nil
+//@   assert at return#7: result != nil
+//@
+//@ func verifySignatureSupported
+//@   modifies nothing
+//@   ensures result == (algorithm == dns.RSASHA1 || algorithm == dns.RSASHA1NSEC3SHA1 || algorithm == dns.RSASHA256 || algorithm == dns.RSASHA512 || algorithm == dns.ECDSAP256SHA256 || algorithm == dns.ECDSAP384SHA384 || algorithm == dns.ED25519)
+//@
+//@ # DS digests: only SHA-1, SHA-256 and SHA-384 are computed (type 5 is GOST at IANA and is refused)
+//@ func dsDigestHash
+//@   modifies nothing
+//@   ensures result1 == (digestType == dns.SHA1 || digestType == dns.SHA256 || digestType == dns.SHA384)
+//@   ensures digestType == dns.SHA1 ==> result0 == crypto.SHA1
+//@   ensures digestType == dns.SHA256 ==> result0 == crypto.SHA256
+//@   ensures digestType == dns.SHA384 ==> result0 == crypto.SHA384
+//@
+//@ # the digest (abstracting tier) is taken over exactly: canonical owner name in wire form | flags (big-endian) |
+//@ # protocol | algorithm | decoded public key (RFC 4034 5.1.4), in that order, with bounded key material, and the verdict
+//@ # is the comparison of that digest with the wanted octets
+//@ func dsDigestMatches
+//@   abstract
+//@   nosafety all pre
+//@   assert at call github.com/miekg/dns.PackDomainName#1: sameslice(arg0, canon(key.Hdr.Name)) && arg2 == 0 && !arg4
+//@   assert at call (hash.Hash).Write#1: calls("(hash.Hash).Write") == 0 && region(arg1) == region(owner) && offset(arg1) == offset(owner) && len(arg1) == lastret("github.com/miekg/dns.PackDomainName") && lastret("github.com/miekg/dns.PackDomainName", 1) == nil && len(arg1) > 0
+//@   assert at call (hash.Hash).Write#2: calls("(hash.Hash).Write") == 1 && len(arg1) == 4 && arg1[0] == uint8(key.Flags >> 8) && arg1[1] == uint8(key.Flags) && arg1[2] == key.Protocol && arg1[3] == key.Algorithm
+//@   assert at call (hash.Hash).Write#3: calls("(hash.Hash).Write") == 2 && arg1 == lastret("(*encoding/base64.Encoding).DecodeString") && lastret("(*encoding/base64.Encoding).DecodeString", 1) == nil && 0 < len(arg1) && len(arg1) <= 4092 && !lastret("middleware/resolver/dnssec.oversizedKeyMaterial")
+//@   assert at call bytes.Equal#1: arg1 == want && arg0 == lastret("(hash.Hash).Sum") && calls("(hash.Hash).Write") == 3
+//@   assert at call (crypto.Hash).New#1: lastret("middleware/resolver/dnssec.dsDigestHash", 1) && arg0 == lastret("middleware/resolver/dnssec.dsDigestHash") && lastret("(crypto.Hash).Size") == len(want)
+//@   assert at return#6: result == lastret("bytes.Equal")
+//@   assert at return#1: !result
+//@   assert at return#2: !result
+//@   assert at return#3: !result
+//@   assert at return#4: !result
+//@   assert at return#5: !result
+//@
+//@ # the signed data (RFC 4034 3.1.8.1): RRSIG RDATA fields in wire order and width — type covered, algorithm, labels,
+//@ # original TTL, expiration, inception, key tag — then the canonical signer name, then the canonical RRset built
+//@ # from THIS RRset and signature
+//@ func rrsigSignedData
+//@   abstract
+//@   nosafety all pre
+//@   assert at call github.com/miekg/dns.PackDomainName#1: len(buf) == 18 && buf[0] == uint8(sig.TypeCovered >> 8) && buf[1] == uint8(sig.TypeCovered) && buf[2] == sig.Algorithm && buf[3] == sig.Labels
+//@   assert at call github.com/miekg/dns.PackDomainName#1: buf[4] == uint8(sig.OrigTtl >> 24) && buf[5] == uint8(sig.OrigTtl >> 16) && buf[6] == uint8(sig.OrigTtl >> 8) && buf[7] == uint8(sig.OrigTtl)
+//@   assert at call github.com/miekg/dns.PackDomainName#1: buf[8] == uint8(sig.Expiration >> 24) && buf[9] == uint8(sig.Expiration >> 16) && buf[10] == uint8(sig.Expiration >> 8) && buf[11] == uint8(sig.Expiration)
+//@   assert at call github.com/miekg/dns.PackDomainName#1: buf[12] == uint8(sig.Inception >> 24) && buf[13] == uint8(sig.Inception >> 16) && buf[14] == uint8(sig.Inception >> 8) && buf[15] == uint8(sig.Inception) && buf[16] == uint8(sig.KeyTag >> 8) && buf[17] == uint8(sig.KeyTag)
+//@   assert at call github.com/miekg/dns.PackDomainName#1: sameslice(arg0, canon(sig.SignerName)) && arg2 == 0 && !arg4 && len(arg1) == 256
+//@   assert at append#2: len(dst) == 18 && region(src) == region(name) && offset(src) == offset(name) && len(src) == lastret("github.com/miekg/dns.PackDomainName") && lastret("github.com/miekg/dns.PackDomainName", 1) == nil
+//@   assert at call middleware/resolver/dnssec.canonicalRRset#1: arg0 == rrset && arg1 == sig
+//@   assert at append#3: src == lastret("middleware/resolver/dnssec.canonicalRRset") && lastret("middleware/resolver/dnssec.canonicalRRset", 1) == nil
